@@ -265,6 +265,89 @@ pub fn miniz_raw(input: &[u8], level: u8) -> Vec<u8> {
     miniz_oxide::deflate::compress_to_vec(input, level)
 }
 
+
+/// A compressor nobody wrote: any valid LZ77 parse of the input (an earlier occurrence that is
+/// not the nearest, a match cut short, a literal where a match existed, more or less often
+/// according to `sloppiness` in 0..=8), written with the fixed Huffman code in one or several
+/// blocks.  The predictor mispredicts such streams in every way there is (wrong token kind,
+/// wrong length, a distance several hops down the chain), which the tuned compressors hardly
+/// ever make it do.
+pub fn sloppy_raw(rng: &mut Rng, input: &[u8], sloppiness: u64) -> Vec<u8> {
+    const LEN_BASE: [u16; 29] = [3, 4, 5, 6, 7, 8, 9, 10, 11, 13, 15, 17, 19, 23, 27, 31, 35, 43, 51, 59, 67, 83, 99, 115, 131, 163, 195, 227, 258];
+    const LEN_EXTRA: [u8; 29] = [0, 0, 0, 0, 0, 0, 0, 0, 1, 1, 1, 1, 2, 2, 2, 2, 3, 3, 3, 3, 4, 4, 4, 4, 5, 5, 5, 5, 0];
+    const DIST_BASE: [u16; 30] = [1, 2, 3, 4, 5, 7, 9, 13, 17, 25, 33, 49, 65, 97, 129, 193, 257, 385, 513, 769, 1025, 1537, 2049, 3073, 4097, 6145, 8193, 12289, 16385, 24577];
+    const DIST_EXTRA: [u8; 30] = [0, 0, 0, 0, 1, 1, 2, 2, 3, 3, 4, 4, 5, 5, 6, 6, 7, 7, 8, 8, 9, 9, 10, 10, 11, 11, 12, 12, 13, 13];
+    struct Bits { out: Vec<u8>, acc: u64, n: u32 }
+    impl Bits {
+        fn put(&mut self, v: u32, n: u32) { self.acc |= (v as u64) << self.n; self.n += n; while self.n >= 8 { self.out.push(self.acc as u8); self.acc >>= 8; self.n -= 8; } }
+        fn code(&mut self, c: u32, n: u32) { let mut r = 0; for i in 0..n { r |= ((c >> i) & 1) << (n - 1 - i); } self.put(r, n); }
+        fn lit(&mut self, sym: u32) {
+            match sym { 0..=143 => self.code(0x30 + sym, 8), 144..=255 => self.code(0x190 + sym - 144, 9), 256..=279 => self.code(sym - 256, 7), _ => self.code(0xC0 + sym - 280, 8) }
+        }
+    }
+    let mut b = Bits { out: Vec::new(), acc: 0, n: 0 };
+    let mut occ: std::collections::HashMap<[u8; 3], Vec<usize>> = std::collections::HashMap::new();
+    let n = input.len();
+    // the parse: (length, distance), distance 0 for a literal
+    let mut toks: Vec<(usize, usize)> = Vec::new();
+    let mut pos = 0usize;
+    let lazy = if rng.chance(1, 2) { rng.range(1, 8) } else { 0 };
+    while pos < n {
+        let mut t = (1usize, 0usize);
+        if pos + 3 <= n && !rng.chance(sloppiness, 24) {
+            if let Some(v) = occ.get(&[input[pos], input[pos + 1], input[pos + 2]]) {
+                let cands: Vec<usize> = v.iter().rev().cloned().filter(|q| pos - q <= 32768).take(8).collect();
+                if !cands.is_empty() {
+                    let k = if rng.chance(sloppiness, 12) { rng.below(cands.len() as u64) as usize } else { 0 };
+                    let q = cands[k];
+                    let mut l = 0usize;
+                    while l < 258 && pos + l < n && input[q + l] == input[pos + l] { l += 1; }
+                    if l > 3 && rng.chance(sloppiness, 16) { l = rng.range(3, l as u64) as usize; }
+                    t = (l, pos - q);
+                    // now and then the lazy rule: a literal if the next position matches longer
+                    if lazy > 0 && pos + 4 <= n && rng.chance(lazy, 8) {
+                        if let Some(w) = occ.get(&[input[pos + 1], input[pos + 2], input[pos + 3]]) {
+                            if let Some(&q1) = w.iter().rev().find(|&&q1| pos + 1 - q1 <= 32768) {
+                                let mut l1 = 0usize;
+                                while l1 < 258 && pos + 1 + l1 < n && input[q1 + l1] == input[pos + 1 + l1] { l1 += 1; }
+                                if l1 > l { t = (1, 0); }
+                            }
+                        }
+                    }
+                }
+            }
+        }
+        for q in pos..pos + t.0 {
+            if q + 3 <= n { occ.entry([input[q], input[q + 1], input[q + 2]]).or_default().push(q); }
+        }
+        pos += t.0;
+        toks.push(t);
+    }
+    let block_len = if rng.chance(1, 2) { usize::MAX } else { rng.range(20, 2000) as usize };
+    let chunks: Vec<&[(usize, usize)]> = if toks.is_empty() { vec![&toks[..]] } else { toks.chunks(block_len.min(toks.len())).collect() };
+    let mut at = 0usize;
+    for (ci, ch) in chunks.iter().enumerate() {
+        b.put(if ci + 1 == chunks.len() { 1 } else { 0 }, 1);
+        b.put(1, 2);
+        for &(l, d) in ch.iter() {
+            if d == 0 {
+                b.lit(input[at] as u32);
+            } else {
+                let li = if l == 258 { 28 } else { (0..28).rev().find(|&i| LEN_BASE[i] as usize <= l).unwrap() };
+                b.lit(257 + li as u32);
+                b.put((l - LEN_BASE[li] as usize) as u32, LEN_EXTRA[li] as u32);
+                let di = (0..30).rev().find(|&i| DIST_BASE[i] as usize <= d).unwrap();
+                b.code(di as u32, 5);
+                b.put((d - DIST_BASE[di] as usize) as u32, DIST_EXTRA[di] as u32);
+            }
+            at += l;
+        }
+        b.lit(256);
+    }
+    if b.n > 0 { b.put(0, 8 - b.n); }
+    b.out
+}
+
 /// a compressor configuration, chosen at random over the whole space the
 /// properties name
 pub fn compress_random(rng: &mut Rng, input: &[u8]) -> (String, Vec<u8>) {
@@ -417,6 +500,17 @@ pub fn sweep_streams(rng: &mut Rng, bases: usize, window: usize) -> Vec<(String,
             for level in [1, 6] {
                 v.push((format!("window/zlib:l{}:w{}/d{}", level, w, d), zlib_raw(&text, level, 0, w, 8)));
             }
+            // the same with a shorter, nearer copy of the phrase's beginning in between: the far
+            // copy is then the second candidate on its chain, where the limit is one byte tighter
+            let mut text2 = text[..p0 + d].to_vec();
+            let near = text2.len() - 60;
+            text2[near..near + 5].copy_from_slice(&phrase[..5]);
+            text2[near + 5] = b'#';
+            text2.extend_from_slice(&phrase);
+            text2.extend_from_slice(b"<end>");
+            for level in [1, 6] {
+                v.push((format!("window2/zlib:l{}:w{}/d{}", level, w, d), zlib_raw(&text2, level, 0, w, 8)));
+            }
         }
     }
     v
@@ -548,17 +642,26 @@ pub fn wrap_gzip(stream: &[u8], plain: &[u8], flags: u8, extra_len: usize, name_
     v
 }
 
-pub fn wrap_zip(stream: &[u8], plain: &[u8], name_len: usize, extra_len: usize, rng: &mut Rng) -> Vec<u8> {
+/// size_mode: what the local header says about the sizes - 0 the truth, 1 nothing (general purpose
+/// bit 3: written by a streaming archiver, the sizes follow the data), 2 too little, 3 too much.
+/// The property speaks of "a ZIP local file header with method 8", whatever else it says.
+pub fn wrap_zip(stream: &[u8], plain: &[u8], name_len: usize, extra_len: usize, size_mode: usize, rng: &mut Rng) -> Vec<u8> {
     let mut v = Vec::new();
     v.extend_from_slice(&0x04034b50u32.to_le_bytes());
     v.extend_from_slice(&20u16.to_le_bytes());
-    v.extend_from_slice(&0u16.to_le_bytes());
+    v.extend_from_slice(&(if size_mode == 1 { 8u16 } else { 0u16 }).to_le_bytes());
     v.extend_from_slice(&8u16.to_le_bytes());
     v.extend_from_slice(&0u16.to_le_bytes());
     v.extend_from_slice(&0u16.to_le_bytes());
-    v.extend_from_slice(&crc32fast::hash(plain).to_le_bytes());
-    v.extend_from_slice(&(stream.len() as u32).to_le_bytes());
-    v.extend_from_slice(&(plain.len() as u32).to_le_bytes());
+    let (crc, csize, usize_) = match size_mode {
+        1 => (0u32, 0u32, 0u32),
+        2 => (crc32fast::hash(plain), (stream.len() / 2) as u32, plain.len() as u32),
+        3 => (crc32fast::hash(plain), stream.len() as u32 + 1000, plain.len() as u32),
+        _ => (crc32fast::hash(plain), stream.len() as u32, plain.len() as u32),
+    };
+    v.extend_from_slice(&crc.to_le_bytes());
+    v.extend_from_slice(&csize.to_le_bytes());
+    v.extend_from_slice(&usize_.to_le_bytes());
     v.extend_from_slice(&(name_len as u16).to_le_bytes());
     v.extend_from_slice(&(extra_len as u16).to_le_bytes());
     for _ in 0..name_len {
